@@ -37,6 +37,9 @@ def prepare():
         sh("git -C %s archive HEAD harness | tar -x -C %s" % (VERIF, MUT))
     gm = open(MUT + "/harness/go.mod").read().replace("=> /repo", "=> %s/repo" % MUT)
     open(MUT + "/harness/go.mod", "w").write(gm)
+    shutil.copytree(os.path.join(VERIF, "harness_ps"), MUT + "/harness_ps")
+    gm = open(MUT + "/harness_ps/go.mod").read().replace("=> /repo", "=> %s/repo" % MUT)
+    open(MUT + "/harness_ps/go.mod", "w").write(gm)
 
 
 def cleanup():
